@@ -784,6 +784,11 @@ def rule_PO(run: Run) -> RuleResult:
             if isinstance(n, ast.Call) and astu.short_name(n) == "set" and n.args:
                 a = ast.unparse(n.args[0])
                 ok = a == f"{astu.param_names(fn)[0]}.keys()"
+                # set(part.keys(options)): a copy of what a part reports (a set of present keys by the same rule)
+                a0_ = n.args[0]
+                if not ok and isinstance(a0_, ast.Call) and isinstance(a0_.func, ast.Attribute) and a0_.func.attr == "keys" and len(a0_.args) == 1 \
+                        and astu.norm_opts(a0_.args[0]) == astu.param_names(fn)[0] and astu.is_self_attr(a0_.func.value):
+                    ok = True
                 res.add(f"{cls.qualname}.keys:set({a}) is a set of present keys", ok, owner.module.relpath, n.lineno, a, nec)
     # (2) WithOptions filter: kept and (P or C) => C, on all assignments.  The filter is read off the
     # interpreter's paths (the test under which an inner key is kept), so helpers and local names are
